@@ -70,10 +70,12 @@ class Deep:
                 deep.logging.exception("Failed to process plugin resource {}", provider.name)
 
         self.config.resource = default_resource
+        # the channel first: once the trace hooks are in, a thread of the application can reach a tracepoint (of the
+        # previous life, of a registration made before the start) and hand over a snapshot, which needs the channel
+        self.grpc.start()
         self.trigger_handler.start()
         # whatever changed while we were stopped (or was applied only in part while we shut down) reaches the handler
         self.config.tracepoints.resync()
-        self.grpc.start()
         self.poll.start()
         self.started = True
 
